@@ -218,13 +218,15 @@ class SLock:
         me = self._tid()
         if self.owner != me:
             raise RuntimeError("cannot release un-acquired lock")
+        s = self._s()
+        if s is not None and me != "main" and not s.aborted:
+            # the scheduling point comes BEFORE the lock is given up: what follows the release
+            # (returning the result to the caller) is then atomic with it
+            s.point("rel", self.role)
         self.count -= 1
         if self.count == 0:
             self.owner = None
             log_event("rel", self.role)
-        s = self._s()
-        if s is not None and me != "main" and not s.aborted:
-            s.point("rel", self.role)
 
     __enter__ = acquire
 
